@@ -11,7 +11,16 @@
 //   - calls of unexported methods of the same receiver type whose bodies (transitively) touch a mutex or a shared
 //     field are inlined at the call site (parameters replaced by the printed arguments); a return inside such a
 //     helper which is not its last statement is reported as event "inline-return" (not understood by the model),
-//   - any other identifier returned as last result is printed as "return var", nil as "return nil".
+//   - a deferred mutex operation inside an inlined helper is printed as that operation at the end of the helper,
+//   - a return whose last result is the identifier nil is printed as "return nil", any other as "return nonnil".
+//
+// What is reported beyond the events of the methods, so that the obligations see every access to shared state:
+//   - "pass $field callee": a shared field handed to a function or method as an argument (the callee may keep or
+//     change what it is given); "alias x $field": a shared field stored in a local variable,
+//   - the list <name>Foreign: exported methods other than the entry methods (-methods) that touch shared state,
+//     helper methods touching shared state that are referenced outside the entry methods and those helpers, and
+//     functions of the package (all files of the directory) that are not methods of the type but select one of
+//     its shared field names.
 package main
 
 import (
@@ -21,6 +30,7 @@ import (
 	"go/parser"
 	"go/token"
 	"os"
+	"path/filepath"
 	"sort"
 	"strings"
 )
@@ -38,6 +48,7 @@ type extractor struct {
 	touches map[string]bool          // methods whose bodies reach a mutex or a shared field
 
 	lastOfInlined map[*ast.ReturnStmt]bool
+	deferred      []string // deferred mutex operations of the helper being inlined
 }
 
 func (e *extractor) fname(n string) string {
@@ -129,6 +140,7 @@ func (e *extractor) expr(fset *token.FileSet, x ast.Expr) {
 			case len(parts) == 2 && e.fields[parts[0]]:
 				for _, a := range v.Args {
 					e.expr(fset, a)
+					e.passed(fset, a, e.fname(parts[0])+"."+parts[1])
 				}
 
 				e.emit("read %s", e.fname(parts[0]))
@@ -142,6 +154,7 @@ func (e *extractor) expr(fset *token.FileSet, x ast.Expr) {
 			case len(parts) == 1:
 				for _, a := range v.Args[min(1, len(v.Args)):] {
 					e.expr(fset, a)
+					e.passed(fset, a, parts[0])
 				}
 
 				arg0 := "-"
@@ -162,6 +175,7 @@ func (e *extractor) expr(fset *token.FileSet, x ast.Expr) {
 
 		for _, a := range v.Args {
 			e.expr(fset, a)
+			e.passed(fset, a, e.str(v.Fun))
 		}
 	case *ast.SelectorExpr:
 		if parts, ok := e.chain(v); ok && len(parts) >= 1 {
@@ -231,7 +245,12 @@ func (e *extractor) stmt(fset *token.FileSet, s ast.Stmt) {
 		e.expr(fset, v.X)
 	case *ast.DeferStmt:
 		if parts, ok := e.chain(v.Call.Fun); ok && len(parts) == 2 && e.mutexes[parts[0]] {
-			e.emit("defer %s %s", strings.ToLower(parts[1]), e.fname(parts[0]))
+			if e.inline > 0 {
+				// runs when the helper returns, i.e. at the end of the inlined body
+				e.deferred = append(e.deferred, fmt.Sprintf("%s %s", strings.ToLower(parts[1]), e.fname(parts[0])))
+			} else {
+				e.emit("defer %s %s", strings.ToLower(parts[1]), e.fname(parts[0]))
+			}
 
 			return
 		}
@@ -251,6 +270,10 @@ func (e *extractor) stmt(fset *token.FileSet, s ast.Stmt) {
 
 				e.emit("write %s %s", e.fname(parts[0]), src)
 			} else if id, isIdent := l.(*ast.Ident); isIdent && len(v.Rhs) == 1 {
+				if parts, rooted := e.chain(v.Rhs[0]); rooted && len(parts) == 1 && e.fields[parts[0]] && id.Name != "_" {
+					e.emit("alias %s %s", id.Name, e.fname(parts[0]))
+				}
+
 				if call, isCall := v.Rhs[0].(*ast.CallExpr); isCall {
 					if parts, rooted := e.chain(call.Fun); rooted && len(parts) == 2 && e.fields[parts[0]] {
 						if len(v.Lhs) == 1 && id.Name != "_" {
@@ -296,10 +319,10 @@ func (e *extractor) stmt(fset *token.FileSet, s ast.Stmt) {
 				if id.Name == "nil" {
 					kind = "return nil"
 				} else {
-					kind = "return var"
+					kind = "return nonnil"
 				}
 			} else {
-				kind = "return value"
+				kind = "return nonnil"
 			}
 		}
 
@@ -408,7 +431,31 @@ func (e *extractor) inlineCall(fset *token.FileSet, call *ast.CallExpr, fd *ast.
 
 	sub.events = e.events
 	sub.block(fset, fd.Body.List)
+
+	for i := len(sub.deferred) - 1; i >= 0; i-- {
+		sub.emit("%s", sub.deferred[i])
+	}
+
 	e.events = sub.events
+}
+
+// passed reports a shared field handed to somebody else as an argument
+func (e *extractor) passed(_ *token.FileSet, a ast.Expr, callee string) {
+	if u, ok := a.(*ast.UnaryExpr); ok {
+		a = u.X
+	}
+
+	if parts, rooted := e.chain(a); rooted && len(parts) == 1 && e.fields[parts[0]] {
+		if callee == "len" || callee == "cap" {
+			return
+		}
+
+		e.emit("pass %s %s", e.fname(parts[0]), callee)
+	}
+
+	if id, ok := a.(*ast.Ident); ok && id.Name == e.recv && e.recv != "_" {
+		e.emit("pass receiver %s", callee)
+	}
 }
 
 // rooted reports whether the body mentions a mutex or shared field of its receiver, or calls a method that does
@@ -459,6 +506,83 @@ func computeTouches(decls map[string]*ast.FuncDecl, mutexes, fields map[string]b
 	}
 
 	return direct
+}
+
+// foreignAccess lists every way shared state of the type can be reached other than through the entry methods
+func foreignAccess(fset *token.FileSet, file, typ string, decls map[string]*ast.FuncDecl, touches, entry,
+	mutexes, fields map[string]bool,
+) []string {
+	var res []string
+
+	for name := range decls {
+		if touches[name] && !entry[name] && ast.IsExported(name) {
+			res = append(res, "exported method "+name+" touches shared state")
+		}
+	}
+
+	dir := filepath.Dir(file)
+
+	ents, err := os.ReadDir(dir)
+	if err != nil {
+		return append(res, "cannot read "+dir)
+	}
+
+	for _, ent := range ents {
+		n := ent.Name()
+		if ent.IsDir() || !strings.HasSuffix(n, ".go") || strings.HasSuffix(n, "_test.go") ||
+			strings.HasPrefix(n, "zz_verif_") {
+			continue
+		}
+
+		f, err := parser.ParseFile(fset, filepath.Join(dir, n), nil, 0)
+		if err != nil {
+			res = append(res, "cannot parse "+n)
+
+			continue
+		}
+
+		for _, d := range f.Decls {
+			fd, ok := d.(*ast.FuncDecl)
+			if !ok || fd.Body == nil {
+				continue
+			}
+
+			own := false
+
+			if fd.Recv != nil && len(fd.Recv.List) == 1 {
+				rt := fd.Recv.List[0].Type
+				if st, isStar := rt.(*ast.StarExpr); isStar {
+					rt = st.X
+				}
+
+				if id, isIdent := rt.(*ast.Ident); isIdent && id.Name == typ {
+					own = true
+				}
+			}
+
+			inside := own && (entry[fd.Name.Name] || touches[fd.Name.Name])
+
+			ast.Inspect(fd.Body, func(nd ast.Node) bool {
+				sel, ok := nd.(*ast.SelectorExpr)
+				if !ok {
+					return true
+				}
+
+				switch {
+				case !own && (mutexes[sel.Sel.Name] || fields[sel.Sel.Name]):
+					res = append(res, fmt.Sprintf("field %s selected in %s (%s)", sel.Sel.Name, fd.Name.Name, n))
+				case !inside && touches[sel.Sel.Name] && !entry[sel.Sel.Name] && decls[sel.Sel.Name] != nil:
+					res = append(res, fmt.Sprintf("helper %s referenced in %s (%s)", sel.Sel.Name, fd.Name.Name, n))
+				}
+
+				return true
+			})
+		}
+	}
+
+	sort.Strings(res)
+
+	return res
 }
 
 func typeString(x ast.Expr) string {
@@ -630,6 +754,8 @@ func main() {
 
 	sort.Slice(methods, func(i, j int) bool { return methods[i].name < methods[j].name })
 
+	foreign := foreignAccess(fset, *file, *typ, decls, touches, want, mutexes, fields)
+
 	var mnames []string
 	for m := range mutexes {
 		if r, ok := roles[m]; ok {
@@ -644,6 +770,7 @@ func main() {
 	fmt.Printf("-- generated by /verif/extract/proto from %s (type %s); do not edit\n", *file, *typ)
 	fmt.Printf("namespace %s\n\n", *ns)
 	fmt.Printf("def %sMutexes : List String := [%s]\n\n", *name, strings.Join(mapStr(mnames, leanString), ", "))
+	fmt.Printf("def %sForeign : List String := [%s]\n\n", *name, strings.Join(mapStr(foreign, leanString), ", "))
 	fmt.Printf("def %s : List (String × List String) := [\n", *name)
 
 	for i, m := range methods {
